@@ -740,7 +740,7 @@ func (c *Canon) cmp2(op token.Token, x, y ssa.Value, d int) string {
 			y = ssa.NewConst(constant.MakeFromLiteral(nk.String(), token.INT, 0), types.Typ[types.Int64])
 		}
 	}
-	xs := c.termD(x, d+1)
+	xs := c.orderOperand(x, op, d+1)
 	if k, ok := intConst(y); ok {
 		// integer boundary shift to >= / <=
 		switch op {
@@ -766,7 +766,7 @@ func (c *Canon) cmp2(op token.Token, x, y ssa.Value, d int) string {
 		}
 		return xs + " " + op.String() + " " + ys
 	}
-	ys := c.termD(y, d+1)
+	ys := c.orderOperand(y, op, d+1)
 	switch op {
 	case token.EQL, token.NEQ:
 		if xs > ys {
@@ -1233,4 +1233,39 @@ func (c *Canon) capturedValue(fv *ssa.FreeVar) (string, bool) {
 		return "", false
 	}
 	return "↑" + t, true
+}
+
+// orderOperand renders an operand of a comparison. Conversions are erased everywhere else, but in
+// an ordering comparison a conversion that changes signedness or narrows the value decides the
+// outcome (`uint32(v) >= 2` holds for a negative v, `v >= 2` does not; `int(n) > max` is false for
+// n >= 2^63): it is kept.
+func (c *Canon) orderOperand(v ssa.Value, op token.Token, d int) string {
+	if op == token.LSS || op == token.LEQ || op == token.GTR || op == token.GEQ {
+		if cv, ok := v.(*ssa.Convert); ok {
+			from, ok1 := cv.X.Type().Underlying().(*types.Basic)
+			to, ok2 := cv.Type().Underlying().(*types.Basic)
+			if ok1 && ok2 && from.Info()&types.IsInteger != 0 && to.Info()&types.IsInteger != 0 {
+				fs, ts := from.Info()&types.IsUnsigned != 0, to.Info()&types.IsUnsigned != 0
+				if fs != ts || intBits(to) < intBits(from) {
+					if _, isConst := cv.X.(*ssa.Const); !isConst {
+						return to.Name() + "(" + c.orderOperand(cv.X, op, d) + ")"
+					}
+				}
+			}
+			return c.orderOperand(cv.X, op, d)
+		}
+	}
+	return c.termD(v, d)
+}
+
+func intBits(b *types.Basic) int {
+	switch b.Kind() {
+	case types.Int8, types.Uint8:
+		return 8
+	case types.Int16, types.Uint16:
+		return 16
+	case types.Int32, types.Uint32:
+		return 32
+	}
+	return 64
 }
